@@ -3,7 +3,7 @@ from simkit.engine import Prop, run_events
 from simkit.gen_hier import hier_config, Builder, ScriptGen
 from simkit.gen_iredit import swarm_config, Gen
 from simkit.model import scan, Snapshot, FIELDS
-from simkit.oracles.canon import positional, first_diff, owned_ids, is_self_contained
+from simkit.oracles.canon import positional, first_diff, owned_ids, is_self_contained, outgoing_closed
 from simkit.oracles.links import check_links
 from simkit.oracles.mirror import check_mirror
 from simkit.oracles.naming import lookup_answers, SCOPES, KEYS
@@ -137,8 +137,9 @@ class C07(Prop):
     relevant_ops = {"clone"}
     components_real = REAL
     components_stub = STUB
-    assumptions = ["closure / disjointness are demanded of netlist clones only when the source netlist is "
-                   "self-contained (every pointer reachable from it lands in something it owns)",
+    assumptions = ["closure / disjointness are demanded of netlist clones only when every pointer that leaves an "
+                   "element of the source lands inside the source (instances outside the netlist that reference its "
+                   "definitions are allowed: the copy must simply not have them)",
                    "is_top_instance flags are not part of the compared structure",
                    "the second history uses only objects of the edited side and objects it creates itself"]
     runs = {"quick": 8000, "thorough": 200000}
@@ -185,7 +186,7 @@ class C07(Prop):
         pre = {"src": src, "snap": Snapshot(w.roots()), "kind": kind_of(src)}
         if pre["kind"] == "netlist":
             top = src.top_instance
-            pre["self_contained"] = (is_self_contained(src)
+            pre["self_contained"] = (outgoing_closed(src)
                                      and all(self.def_ok(d) for l in src.libraries for d in l.definitions)
                                      and (top is None or top.parent is not None
                                           or all(op.wire is None for op in top.pins.values())))
